@@ -497,14 +497,29 @@ def namedtuple_types(tree):
     stores = _module_bindings(tree)
     out = {}
     for st in tree.body:
-        if not (isinstance(st, ast.Assign) and len(st.targets) == 1 and isinstance(st.targets[0], ast.Name) and isinstance(st.value, ast.Call)):
+        if isinstance(st, ast.ClassDef):
+            # ``class _P(namedtuple('_P', 'a b')): __slots__ = (); <methods>``: construction and field access are the named
+            # tuple's own when the body defines no constructor / attribute hook and binds no field name
+            if len(st.bases) != 1 or st.keywords or st.decorator_list or not isinstance(st.bases[0], ast.Call):
+                continue
+            c, name = st.bases[0], st.name
+            body_names = set()
+            for m in st.body:
+                if isinstance(m, (ast.FunctionDef, ast.AsyncFunctionDef, ast.ClassDef)):
+                    body_names.add(m.name)
+                else:
+                    body_names |= _stored_names([m])
+            if body_names & {'__new__', '__init__', '__getattribute__', '__getattr__', '__getitem__', '__class_getitem__', '__init_subclass__'}:
+                continue
+        elif isinstance(st, ast.Assign) and len(st.targets) == 1 and isinstance(st.targets[0], ast.Name) and isinstance(st.value, ast.Call):
+            c, name, body_names = st.value, st.targets[0].id, set()
+        else:
             continue
-        c = st.value
         f = c.func
         if not ((isinstance(f, ast.Name) and f.id == 'namedtuple') or
                 (isinstance(f, ast.Attribute) and f.attr == 'namedtuple' and isinstance(f.value, ast.Name) and f.value.id == 'collections')):
             continue
-        if len(c.args) != 2 or c.keywords or stores.get(st.targets[0].id) != 1:
+        if len(c.args) != 2 or c.keywords or stores.get(name) != 1:
             continue
         spec = c.args[1]
         fields = None
@@ -512,8 +527,9 @@ def namedtuple_types(tree):
             fields = spec.value.replace(',', ' ').split()
         elif isinstance(spec, (ast.Tuple, ast.List)) and all(isinstance(e, ast.Constant) and isinstance(e.value, str) for e in spec.elts):
             fields = [e.value for e in spec.elts]
-        if fields and all(x.isidentifier() and not x.startswith('_') for x in fields) and len(set(fields)) == len(fields):
-            out[st.targets[0].id] = fields
+        if fields and all(x.isidentifier() and not x.startswith('_') for x in fields) and len(set(fields)) == len(fields) and \
+                not (set(fields) & body_names):
+            out[name] = fields
     return out
 
 
